@@ -17,7 +17,9 @@ import (
 	"golang.org/x/tools/go/ssa/ssautil"
 )
 
-const repoDir = "/repo"
+// repoDir is the tree under check. VERIF_REPO overrides it for development only (running a check
+// against a scratch worktree carrying a seeded change); registered commands never set it.
+var repoDir = "/repo"
 
 var verifDir = "/verif"
 
@@ -90,15 +92,65 @@ func main() {
 	if v := os.Getenv("VERIF_DIR"); v != "" {
 		verifDir = v
 	}
+	if v := os.Getenv("VERIF_REPO"); v != "" {
+		repoDir = v
+	}
 	if len(os.Args) < 2 {
 		fatal(2, "usage: symgo check <spec.json> [flags]")
 	}
 	switch os.Args[1] {
 	case "check":
 		os.Exit(cmdCheck(os.Args[2:]))
+	case "replay":
+		os.Exit(cmdReplay(os.Args[2:]))
 	default:
 		fatal(2, "unknown command %s", os.Args[1])
 	}
+}
+
+// cmdReplay re-runs the counterexample stored in a replay file natively against /repo's current tree.
+// exit 1: the violation reproduces; 0: it does not (the property clause holds on that input); 2: error.
+func cmdReplay(args []string) int {
+	if len(args) < 1 {
+		fatal(2, "usage: symgo replay <replay.json>")
+	}
+	raw, err := os.ReadFile(args[0])
+	if err != nil {
+		fatal(2, "cannot read replay file: %v", err)
+	}
+	var rp struct {
+		Property string     `json:"property"`
+		Spec     string     `json:"spec"`
+		Clause   string     `json:"clause"`
+		Kind     string     `json:"kind"`
+		Case     nativeCase `json:"case"`
+	}
+	if err := json.Unmarshal(raw, &rp); err != nil {
+		fatal(2, "bad replay file: %v", err)
+	}
+	sraw, err := os.ReadFile(filepath.Join(verifDir, rp.Spec))
+	if err != nil {
+		fatal(2, "cannot read spec %s: %v", rp.Spec, err)
+	}
+	var spec Spec
+	if err := json.Unmarshal(sraw, &spec); err != nil {
+		fatal(2, "bad spec: %v", err)
+	}
+	res, err := runNative(&spec, []nativeCase{rp.Case})
+	if err != nil {
+		fmt.Printf("INCONCLUSIVE property=%s: native replay failed: %v\n", rp.Property, err)
+		return 2
+	}
+	fmt.Printf("replay property=%s entry=%s clause=%s native_end=%s\n", rp.Property, rp.Case.Entry, rp.Clause, res[0].End)
+	for _, o := range res[0].Observed {
+		fmt.Println("  observed", o)
+	}
+	if (rp.Kind == "panic" && strings.HasPrefix(res[0].End, "panic:")) || res[0].End == "assert:"+rp.Clause {
+		fmt.Printf("VIOLATION property=%s replay=%s\n", rp.Property, args[0])
+		return 1
+	}
+	fmt.Println("not reproduced on the current tree")
+	return 0
 }
 
 type instance struct {
